@@ -185,13 +185,18 @@ def resEq : Res → Res → Bool
   | a, b => a == b
 
 def runLine (ts : List String) : Verdict :=
-  let p : P (Nat × List (Op × Res)) := do
+  let p : P (Nat × List (Op × Res) × Option String) := do
     P.kw "cap"; let cap ← P.nat
     P.kw "ops"; let ops ← P.list parseOp
-    pure (cap, ops)
+    let pk ← P.peek
+    if pk == some "PANIC" then
+      let _ ← P.tok
+      let what ← P.tok
+      pure (cap, ops, some what)
+    else pure (cap, ops, none)
   match P.run p ts with
   | .error e => .bad e
-  | .ok (cap, ors) =>
+  | .ok (cap, ors, panicked) =>
     let ops := ors.map (·.1)
     let impl := ors.map (·.2)
     let (_, mres) := runOps (RB.create cap) ops
@@ -202,6 +207,11 @@ def runLine (ts : List String) : Verdict :=
     | .error .multNotMultiple => .viol "C18:not-multiple ReadMultipleOf returned a non-multiple of the chunk size"
     | .error .overAccept => .viol "C18:over-accept Write accepted more than the free space"
     | .ok a =>
+      -- the operations completed so far satisfy the property; if the next one panicked inside the real
+      -- ring buffer that is the violation (no sequence of writes and reads may do that)
+      if let some what := panicked then
+        .viol s!"C18:panic a ring-buffer operation ({what}) panicked after {ors.length} property-conforming operations on a buffer of {cap} bytes"
+      else
       if !(List.zipWith resEq mres impl).all id || mres.length != impl.length then
         .diff s!"results differ at op {(firstDiff (mres.map fun r => if r == .unmodelled then none else some r) (impl.zip mres |>.map fun (i, m) => if m == .unmodelled then none else some i) 0).getD 0}"
       else
